@@ -159,7 +159,7 @@ def diff_check(ctx, wrapper, wdefs, harness, entry, hdefs, n):
 
 
 def query(ctx, name, wrapper, wdefs, harness, entry, hdefs=(), u0=3, umax=130, timeout=600, flavour='ubsan',
-          witness=True, diff=3000, extra=(), note=''):
+          witness=True, diff=3000, extra=(), note='', mem_gb=12):
     """one E1 query incl. witness twin, differential self-check, native replay of counterexamples.
     returns status string; reports violations / inconclusive results into ctx."""
     t0 = time.time()
@@ -179,7 +179,7 @@ def query(ctx, name, wrapper, wdefs, harness, entry, hdefs=(), u0=3, umax=130, t
         if not ok:
             ctx.inconclusive.append('%s: encoder self-check mismatch (real g++ build vs generated C): %s' % (name, info))
             ctx.queries.append(rec); return 'ENCODER'
-    res = cbmc_refine(q, entry, hdefs, u0, umax, timeout, extra=extra)
+    res = cbmc_refine(q, entry, hdefs, u0, umax, timeout, mem_gb=mem_gb, extra=extra)
     ctx.counters['cbmc_runs'] += res['iters']; ctx.counters['cbmc_props'] += res['props']; ctx.counters['cbmc_s'] += res['wall']
     rec.update(status=res['status'], properties=res['props'], unwind_bounds=res['bounds'], unwind_default=u0, unwind_max=umax,
                refinement_rounds=res['iters'], cbmc_wall_s=round(res['wall'], 1), failures=[d for _, d in res['fails']][:10])
@@ -212,7 +212,7 @@ def query(ctx, name, wrapper, wdefs, harness, entry, hdefs=(), u0=3, umax=130, t
                 else:
                     ctx.inconclusive.append('%s: cbmc counterexample does not reproduce natively (%s): %s' % (name, viol, json.dumps(vals)[:300]))
     if witness and status == 'SUCCESS':
-        wres = cbmc_refine(q, entry, list(hdefs) + ['WITNESS'], u0, umax, timeout, extra=extra)
+        wres = cbmc_refine(q, entry, list(hdefs) + ['WITNESS'], u0, umax, timeout, mem_gb=mem_gb, extra=extra)
         ctx.counters['cbmc_runs'] += wres['iters']; ctx.counters['cbmc_s'] += wres['wall']
         wf = [d for _, d in wres['fails']]
         rec['witness'] = dict(status=wres['status'], failures=wf[:3])
